@@ -265,6 +265,9 @@ func (ef *Filter) Process(ctx context.Context, e *eventlogger.Event) (*eventlogg
 				if ef.ignore(f) {
 					continue
 				}
+				if (f.Kind() == reflect.Ptr || f.Kind() == reflect.Interface) && f.IsNil() {
+					continue // a nil element holds nothing to filter
+				}
 				fieldTaggedInterface, fieldIsTaggable := f.Interface().(Taggable)
 				if fieldIsTaggable {
 					if err := ef.filterTaggable(ctx, fieldTaggedInterface, filterOverrides, tm, opts...); err != nil {
@@ -418,6 +421,9 @@ func (ef *Filter) filterField(ctx context.Context, v reflect.Value, filterOverri
 					f := field.Index(i)
 					if ef.ignore(f) {
 						continue
+					}
+					if (f.Kind() == reflect.Ptr || f.Kind() == reflect.Interface) && f.IsNil() {
+						continue // a nil element holds nothing to filter
 					}
 					fieldTaggedInterface, fieldIsTaggable := f.Interface().(Taggable)
 					if fieldIsTaggable && !opts.withIgnoreTaggable {
